@@ -115,3 +115,22 @@ impl SegmentSizes {
         D(self)
     }
 }
+
+#[cfg(feature = "verif")]
+impl SegmentSizes {
+    /// Verification hook: exact internal state.
+    pub fn verif_state(&self) -> [u64; 4] {
+        let SegmentSizes {
+            min_ss,
+            max_ss,
+            cooldown_remaining_packets,
+            cooldown_max_packets,
+        } = *self;
+        [
+            min_ss as u64,
+            max_ss as u64,
+            cooldown_remaining_packets as u64,
+            cooldown_max_packets as u64,
+        ]
+    }
+}
